@@ -1,0 +1,298 @@
+// Copyright (C) 2026 Storj Labs, Inc.
+// See LICENSE for copying information.
+
+//go:build verif
+
+package drpcstream
+
+// Machine-checked contracts for this package (read by /verif/govc; comment-only).
+
+// ---- inspectMutex: the embedded mutex protects the published "held" flag
+
+//@ monitor inspectMutex.Mutex
+//@   protects held
+//@   atomic held
+//@   invariant [free]     self.held == 0
+//@   published [p-range]  self.held <= 1
+
+// ---- packetBuffer: single-slot rendezvous between the connection reader (Put) and the consumer
+// ---- (Get ... Done); the reader's buffer is lent, not copied.
+
+//@ spec pbInv(pb *packetBuffer) bool = (pb.err != nil ==> !pb.set && !pb.held && pb.data == nil) && (pb.held ==> pb.set)
+
+//@ monitor packetBuffer.mu
+//@   protects err, data, set, held
+//@   invariant [closed]  self.err != nil ==> !self.set && !self.held && self.data == nil
+//@   invariant [held]    self.held ==> self.set
+//@   guarantee [g-err]   old(self.err) != nil ==> self.err == old(self.err)
+
+//@ func (*packetBuffer).init
+//@   inline
+
+//@ func (*packetBuffer).Close
+//@   props C03 C01 C04 C05
+//@   requires err != nil
+//@   loop 1 invariant [inv] pbInv(pb) && pb == pb0 && err == err0 && (old(pb.err) != nil ==> pb.err == old(pb.err))
+//@   check [closed] pb.err != nil && !pb.set && !pb.held
+//@   check [first]  old(pb.err) != nil ==> pb.err == old(pb.err)
+//@   ensures [err]  pb.err != nil
+
+// Put hands data to the consumer and does not return while the slot is set or held: the lent reader
+// buffer is not reused before the consumer is done with it (or the stream is closed).
+//@ func (*packetBuffer).Put
+//@   props C03 C01 C04
+//@   loop 1 invariant [inv] pbInv(pb) && pb == pb0 && data == data0
+//@   loop 2 invariant [inv] pbInv(pb) && pb == pb0 && data == data0
+//@   check [drained] pb.err != nil || (!pb.set && !pb.held)
+
+//@ func (*packetBuffer).Get
+//@   props C03 C01 C04
+//@   loop 1 invariant [inv] pbInv(pb) && pb == pb0
+//@   check [lent] result1 == nil ==> pb.set && pb.held && result0 == pb.data
+//@   check [err]  result1 != nil ==> result1 == pb.err && result0 == nil
+//@   ensures [closed] result1 != nil ==> pb.err != nil && result1 == pb.err
+
+//@ func (*packetBuffer).Done
+//@   props C03 C01 C04
+//@   check [returned] !pb.set && !pb.held && pb.data == nil
+
+// ---- Stream. Abstract view: the five one-shot signals (set-once, monotone), the packet buffer's
+// ---- error, the two operation locks, the message counter. "sent" counts packets handed to the
+// ---- writer by an operation, "sentKind"/"sentCtl" describe the last one.
+
+//@ spec sigSet(g *drpcsignal.Signal) bool = (g.status & 2) != 0
+//@ spec sigErr(g *drpcsignal.Signal) error = g.err
+//@ spec sTerm(s *Stream) bool = sigSet(s.sigs.term)
+//@ spec sSend(s *Stream) bool = sigSet(s.sigs.send)
+//@ spec sRecv(s *Stream) bool = sigSet(s.sigs.recv)
+//@ spec sFin(s *Stream) bool = sigSet(s.sigs.fin)
+//@ spec sCancel(s *Stream) bool = sigSet(s.sigs.cancel)
+
+// package-level error values are created by errs.Class.New at init time (never nil)
+//@ axiom termBothClosed != nil && termClosed != nil && termError != nil && sendClosed != nil
+
+//@ func (*Stream).log
+//@   inline
+
+// finished is signalled at most by the call that wins fin.Set, only when terminated and (as
+// observed) no operation holds the write or read lock; never before termination.
+//@ func (*Stream).checkFinished
+//@   props C03 C04 C12
+//@   ghost entry sawTerm = false
+//@   ghost after:(*Signal).IsSet#1 sawTerm = ret
+//@   ghost entry finWon = false
+//@   ghost after:(*Signal).Set#1 finWon = ret
+//@   site (*Signal).Set#1 assert [C03.fin-after-term] sawTerm && arg1 == nil
+//@   site (*Signal).Set#2 assert [C03.ctx-once]       finWon
+//@   check [C03.never-before-term] !sawTerm ==> eventCount("call:(*Signal).Set") == 0 && eventCount("send") == 0
+//@   check [C03.fin-once]          eventCount("send") <= 1 && (eventCount("send") == 1 ==> finWon)
+
+//@ func (*Stream).checkCancelError
+//@   props C03 C04 C05
+//@   ensures [cancel-wins] sCancel(s) || result == err
+
+//@ func (*Stream).newFrameLocked
+//@   props C07 C01
+//@   requires [C07.write-held] held(s.write.Mutex)
+//@   modifies s.id
+//@   ensures [id]   result.ID.Stream == old(s.id.Stream) && result.ID.Message == old(s.id.Message) + 1 && s.id == result.ID
+//@   ensures [kind] result.Kind == kind && !result.Done && !result.Control && len(result.Data) == 0
+
+// one packet = one done frame with a fresh message id, written and flushed under the write lock
+//@ func (*Stream).sendPacketLocked
+//@   props C07 C01 C03 C05
+//@   requires [C07.write-held] held(s.write.Mutex)
+//@   requires s.wr != nil && s.wr.w != nil
+//@   modifies s.id, allmem
+//@   ghost entry frames = 0
+//@   ghost after:(*Writer).WriteFrame frames = frames + 1
+//@   site (*Writer).WriteFrame assert [C07.frame] arg1.Kind == kind && arg1.Control == control && arg1.Done && arg1.Data == data && arg1.ID.Stream == s.id.Stream && arg1.ID.Message == old(s.id.Message) + 1
+//@   check [one-frame] frames == 1
+//@   ensures [id] s.id.Stream == old(s.id.Stream) && s.id.Message == old(s.id.Message) + 1
+
+//@ func (*Stream).terminateIfBothClosed
+//@   site (*Signal).Set assert [nonnil-set] arg1 != nil
+//@   props C03
+//@   requires held(s.mu.Mutex)
+//@   ensures [noop] true
+
+// terminate: all three signals are set (first setter wins, so earlier values stay), the packet
+// buffer is closed, and the finished check runs.
+//@ func (*Stream).terminate
+//@   site (*Signal).Set assert [nonnil-set] arg1 != nil
+//@   props C03 C04 C05 C12
+//@   requires held(s.mu.Mutex)
+//@   requires err != nil
+//@   ensures [set]  sSend(s) && sRecv(s) && sTerm(s) && s.pbuf.err != nil
+//@   ensures [path] eventAfterLast("call:(*packetBuffer).Close", "call:(*Stream).checkFinished")
+
+// ---- terminal operations. "wasTerm" is what the operation observed under s.mu; the documented
+// ---- state machine says: already terminated -> nil, nothing emitted; otherwise terminate and emit
+// ---- exactly one packet of the operation's kind under the write lock.
+
+//@ func (*Stream).Close
+//@   modifies s.id, allmem
+//@   props C03 C04 C07 C12
+//@   requires s.wr != nil && s.wr.w != nil
+//@   ghost entry wasTerm = false
+//@   ghost after:(*Signal).IsSet#1 wasTerm = ret
+//@   ghost entry sent = 0
+//@   ghost after:(*Stream).sendPacketLocked sent = sent + 1
+//@   site (*Stream).sendPacketLocked assert [C03.close-packet] !wasTerm && arg1 == drpcwire.KindClose && !arg2 && arg3 == nil && held(s.write.Mutex)
+//@   site (*inspectMutex).Lock#2 assert [C04.leaf-mu] !held(s.mu.Mutex)
+//@   check [C03.idempotent]     wasTerm ==> sent == 0 && err == nil
+//@   check [C03.emits-once]     !wasTerm ==> sent == 1
+//@   check [C03.monotone]       old(sTerm(s)) ==> wasTerm
+//@   check [C03.finished-check] eventAfterLast("unlock:storj.io/drpc/drpcstream.Stream.write", "call:(*Stream).checkFinished")
+//@   check   [C03.all-set]      !wasTerm ==> sSend(s) && sRecv(s)
+//@   ensures [C03.terminated]   sTerm(s)
+
+//@ func (*Stream).SendError
+//@   site (*Signal).Set assert [nonnil-set] arg1 != nil
+//@   modifies s.id, allmem
+//@   props C03 C04 C07 C10
+//@   requires s.wr != nil && s.wr.w != nil && serr != nil
+//@   ghost entry wasTerm = false
+//@   ghost after:(*Signal).IsSet#1 wasTerm = ret
+//@   ghost entry sent = 0
+//@   ghost after:(*Stream).sendPacketLocked sent = sent + 1
+//@   ghost entry merr = nil
+//@   ghost call:MarshalError merr = arg0
+//@   site (*Stream).sendPacketLocked assert [C03.error-packet] !wasTerm && arg1 == drpcwire.KindError && !arg2 && held(s.write.Mutex) && merr == serr
+//@   site (*inspectMutex).Lock#2 assert [C04.leaf-mu] !held(s.mu.Mutex)
+//@   check [C03.idempotent]     wasTerm ==> sent == 0 && err == nil
+//@   check [C03.emits-once]     !wasTerm ==> sent == 1
+//@   check [C03.finished-check] eventAfterLast("unlock:storj.io/drpc/drpcstream.Stream.write", "call:(*Stream).checkFinished")
+//@   check   [C03.all-set]      !wasTerm ==> sSend(s) && sRecv(s)
+//@   ensures [C03.terminated]   sTerm(s)
+
+//@ func (*Stream).CloseSend
+//@   site (*Signal).Set assert [nonnil-set] arg1 != nil
+//@   modifies s.id, allmem
+//@   props C03 C04 C07 C01
+//@   requires s.wr != nil && s.wr.w != nil
+//@   ghost entry wasSend = false
+//@   ghost after:(*Signal).IsSet#1 wasSend = ret
+//@   ghost entry wasTerm = false
+//@   ghost after:(*Signal).IsSet#2 wasTerm = ret
+//@   ghost entry sent = 0
+//@   ghost after:(*Stream).sendPacketLocked sent = sent + 1
+//@   site (*Stream).sendPacketLocked assert [C03.closesend-packet] !wasSend && !wasTerm && arg1 == drpcwire.KindCloseSend && !arg2 && arg3 == nil && held(s.write.Mutex)
+//@   site (*inspectMutex).Lock#2 assert [C04.leaf-mu] !held(s.mu.Mutex)
+//@   check [C03.idempotent]     wasSend || wasTerm ==> sent == 0 && err == nil
+//@   check [C03.emits-once]     !(wasSend || wasTerm) ==> sent == 1
+//@   check [C03.finished-check] eventAfterLast("unlock:storj.io/drpc/drpcstream.Stream.write", "call:(*Stream).checkFinished")
+//@   ensures [C03.send-closed]  sSend(s) || sTerm(s)
+
+// Cancel: nothing is emitted; cancel, send and the termination signals are set (first setter wins);
+// a finished stream is left alone.
+//@ func (*Stream).Cancel
+//@   site (*Signal).Set assert [nonnil-set] arg1 != nil
+//@   props C03 C04 C05
+//@   requires err != nil
+//@   ghost entry wasFin = false
+//@   ghost after:(*Stream).IsFinished#1 wasFin = ret
+//@   check [C03.finished-noop] wasFin ==> result && eventCount("call:(*Signal).Set") == 0
+//@   check [C03.no-emission]   eventCount("call:(*Stream).sendPacketLocked") == 0 && eventCount("call:(*Writer).WriteFrame") == 0
+//@   ensures [C03.cancelled]   !result ==> sCancel(s) && sSend(s) && sRecv(s) && sTerm(s) && s.pbuf.err != nil
+//@   ensures [C03.result]      result ==> sFin(s)
+
+// SendCancel never blocks on a lock: both locks are only tried. Busy means nothing was changed.
+//@ func (*Stream).SendCancel
+//@   site (*Signal).Set assert [nonnil-set] arg1 != nil
+//@   modifies s.id, allmem
+//@   props C03 C04 C07 C18
+//@   requires s.wr != nil && s.wr.w != nil && err != nil
+//@   ghost entry wasTerm = false
+//@   ghost after:(*Signal).IsSet#1 wasTerm = ret
+//@   ghost entry sent = 0
+//@   ghost after:(*Stream).sendPacketLocked sent = sent + 1
+//@   site (*Stream).sendPacketLocked assert [C03.cancel-packet] !wasTerm && arg1 == drpcwire.KindCancel && arg2 && arg3 == nil && held(s.write.Mutex) && !held(s.mu.Mutex)
+//@   check [C04.never-locks]    eventCount("call:(*inspectMutex).Lock") == 0
+//@   check [C03.busy-noop]      busy ==> sent == 0 && result1 == nil && eventCount("call:(*Signal).Set") == 0
+//@   check [C03.idempotent]     !busy && wasTerm ==> sent == 0 && result1 == nil
+//@   check [C03.emits-once]     !busy && !wasTerm ==> sent == 1
+//@   check [C03.finished-check] eventAfterLast("unlock:storj.io/drpc/drpcstream.Stream.write", "call:(*Stream).checkFinished")
+//@   check   [C03.all-set]      !busy && !wasTerm ==> sSend(s) && sRecv(s)
+//@   ensures [C03.terminated]   !busy ==> sTerm(s)
+
+// ---- packets from the peer
+
+// HandlePacket: a packet for another stream or for a terminated stream changes nothing; a message is
+// handed unchanged to the packet buffer; every other kind follows the documented transition; an
+// unknown kind is ignored when it carries the control bit and is an error otherwise.
+//@ func (*Stream).HandlePacket
+//@   site (*Signal).Set assert [nonnil-set] arg1 != nil
+//@   props C03 C02 C04 C10 C13 C18
+//@   ghost entry wasTerm = false
+//@   ghost after:(*Signal).IsSet#1 wasTerm = ret
+//@   ghost entry putData = nil
+//@   ghost call:(*packetBuffer).Put putData = arg1
+//@   check [C02.foreign-noop]  pkt.ID.Stream != old(s.id.Stream) ==> err == nil && eventCount("call:(*Signal)") == 0 && eventCount("call:(*packetBuffer)") == 0 && eventCount("lock:") == 0
+//@   check [C03.term-noop]     pkt.ID.Stream == old(s.id.Stream) && wasTerm ==> err == nil && eventCount("call:(*Signal).Set") == 0 && eventCount("call:(*packetBuffer)") == 0 && eventCount("lock:") == 0
+//@   check [C01.message]       pkt.ID.Stream == old(s.id.Stream) && !wasTerm && pkt.Kind == drpcwire.KindMessage ==> err == nil && putData == pkt.Data && eventCount("call:(*packetBuffer).Put") == 1 && eventCount("call:(*Signal).Set") == 0
+//@   check [C03.no-emission]   eventCount("call:(*Stream).sendPacketLocked") == 0 && eventCount("call:(*Writer)") == 0
+//@   check [C18.unknown-control] pkt.ID.Stream == old(s.id.Stream) && !wasTerm && pkt.Kind > drpcwire.KindCloseSend && pkt.Control ==> err == nil && eventCount("call:(*Signal).Set") == 0 && eventCount("call:(*packetBuffer)") == 0
+//@   check [C03.unknown-error] pkt.ID.Stream == old(s.id.Stream) && !wasTerm && (pkt.Kind > drpcwire.KindCloseSend || pkt.Kind == 0) && !pkt.Control ==> err != nil && sTerm(s)
+//@   check [C03.invoke-error]  pkt.ID.Stream == old(s.id.Stream) && !wasTerm && pkt.Kind == drpcwire.KindInvoke ==> err != nil && sTerm(s)
+//@   check [C03.error]         pkt.ID.Stream == old(s.id.Stream) && !wasTerm && pkt.Kind == drpcwire.KindError ==> err == nil && sTerm(s) && sSend(s) && sRecv(s)
+//@   check [C03.cancel]        pkt.ID.Stream == old(s.id.Stream) && !wasTerm && pkt.Kind == drpcwire.KindCancel ==> err == nil && sTerm(s) && sSend(s) && sCancel(s)
+//@   check [C03.close]         pkt.ID.Stream == old(s.id.Stream) && !wasTerm && pkt.Kind == drpcwire.KindClose ==> err == nil && sTerm(s) && sRecv(s) && s.pbuf.err != nil
+//@   check [C03.closesend]     pkt.ID.Stream == old(s.id.Stream) && !wasTerm && pkt.Kind == drpcwire.KindCloseSend ==> err == nil && sRecv(s) && s.pbuf.err != nil
+
+// ---- sending
+
+// rawWriteLocked: the frames written tile the message in order (they alias it), share one fresh
+// message id and the kind, and exactly the last one is done; nothing is written once the send or
+// termination signal is seen.
+//@ func (*Stream).rawWriteLocked
+//@   props C01 C07 C03 C05
+//@   requires [C07.write-held] held(s.write.Mutex)
+//@   requires s.wr != nil && s.wr.w != nil
+//@   modifies s.id, allmem
+//@   let m = ite(s.opts.SplitSize == 0, 65536, ite(s.opts.SplitSize < 0, 0, s.opts.SplitSize))
+//@   ghost entry emitted = 0
+//@   ghost entry frames = 0
+//@   ghost after:(*Writer).WriteFrame emitted = emitted + len(arg1.Data)
+//@   ghost after:(*Writer).WriteFrame frames = frames + 1
+//@   site (*Writer).WriteFrame assert [C01.frame-id]   arg1.ID.Stream == s.id.Stream && arg1.ID.Message == old(s.id.Message) + 1 && arg1.Kind == kind0 && !arg1.Control
+//@   site (*Writer).WriteFrame assert [C01.frame-data] arr(arg1.Data) == arr(data0) && off(arg1.Data) == off(data0) + emitted && len(arg1.Data) >= 0
+//@   site (*Writer).WriteFrame assert [C01.frame-done] arg1.Done == (emitted + len(arg1.Data) == len(data0))
+//@   loop 1 invariant [tile] arr(data) == arr(data0) && off(data) == off(data0) + emitted && len(data) == len(data0) - emitted && 0 <= emitted && emitted <= len(data0)
+//@   loop 1 invariant [hdr]  fr.ID.Stream == s.id.Stream && fr.ID.Message == s.id.Message && s.id.Message == old(s.id.Message) + 1 && s.id.Stream == old(s.id.Stream) && fr.Kind == kind0 && !fr.Control && kind == kind0 && s == s0 && n == s.opts.SplitSize && s.wr != nil && s.wr.w != nil && 0 <= frames && (frames > 0 ==> len(data) > 0)
+//@   loop 1 decreases len(data) + ite(frames == 0, 1, 0)
+//@   assumes "the send and term signals of a stream are only ever set with non-nil errors (asserted at every Set call site of this package: [nonnil-set] clauses)"
+//@   site (*Signal).Err assumeafter [nonnil] ret != nil
+//@   check [C01.complete] err == nil ==> emitted == len(data0) && frames >= 1
+//@   ensures [id] s.id.Stream == old(s.id.Stream) && s.id.Message == old(s.id.Message) + 1
+
+//@ func (*Stream).rawFlushLocked
+//@   props C01 C07 C05
+//@   requires [C07.write-held] held(s.write.Mutex)
+//@   requires s.wr != nil && s.wr.w != nil
+//@   modifies allmem
+
+//@ func (*Stream).RawWrite
+//@   props C01 C07 C03
+//@   requires s.wr != nil && s.wr.w != nil
+//@   modifies s.id, allmem
+//@   check [C03.finished-check] eventAfterLast("unlock:storj.io/drpc/drpcstream.Stream.write", "call:(*Stream).checkFinished")
+
+//@ func (*Stream).RawFlush
+//@   props C01 C07 C03
+//@   requires s.wr != nil && s.wr.w != nil
+//@   modifies allmem
+//@   check [C03.finished-check] eventAfterLast("unlock:storj.io/drpc/drpcstream.Stream.write", "call:(*Stream).checkFinished")
+
+// MsgSend: with automatic flushing a successful send leaves nothing pending in the writer.
+//@ func (*Stream).MsgSend
+//@   props C01 C07 C03 C05
+//@   requires s.wr != nil && s.wr.w != nil && enc != nil
+//@   modifies s.id, s.wbuf, allmem
+//@   ghost entry flushed = false
+//@   ghost after:(*Stream).rawFlushLocked flushed = true
+//@   ghost entry wrote = false
+//@   ghost after:(*Stream).rawWriteLocked wrote = ret == nil
+//@   site (*Stream).rawWriteLocked assert [C01.kind] arg1 == drpcwire.KindMessage && held(s.write.Mutex)
+//@   check [C01.flush-after-send] err == nil && !s.opts.ManualFlush ==> wrote && flushed
+//@   check [C03.finished-check] eventAfterLast("unlock:storj.io/drpc/drpcstream.Stream.write", "call:(*Stream).checkFinished")
